@@ -25,7 +25,7 @@ VERIF = "/verif"
 REPO = "/repo"
 VPOOL = "/var/tmp/vpool"
 RPOOL = "/var/tmp/rpool"
-EXTRA = {"C17_3": ["C06"], "C03_2": ["C07"]}
+EXTRA = {"C17_3": ["C06"], "C03_2": ["C07"], "C02_14": ["C07"], "C18_14": ["C09"]}
 
 
 def sh(cmd, **kw):
